@@ -354,7 +354,9 @@ def gen_num2dt(tree):
         raise Unsupported('num2dt: signature changed', f)
 
     def glue(s, env, lines, pad):
-        return same(s, 'i = int(n)') or same(s, 'f = datetime.timedelta(n - i)')
+        # f = the fraction of a day; `float(n - i)` (repair C04-D5) is the same number as a python float: every float is a float,
+        # an int / numpy difference 0 becomes 0.0
+        return same(s, 'i = int(n)') or same(s, 'f = datetime.timedelta(n - i)') or same(s, 'f = datetime.timedelta(float(n - i))')
 
     def plus_f(v):
         if isinstance(v, ast.BinOp) and isinstance(v.op, ast.Add) and same(v.right, 'f'):
